@@ -722,7 +722,7 @@ func (r *Run) checkUnitOrder(P string, lexFn *ssa.Function) {
 		n := 0
 		for _, ip := range paths {
 			consistent := true
-			for _, fc := range rawPathFacts(lf, ip.Blocks) {
+			for _, fc := range pathFacts(lf, ip.Blocks) {
 				if op, ok := relOf(fc, true); ok && !holds(o, op) {
 					consistent = false
 				}
@@ -781,7 +781,7 @@ func (r *Run) checkUnitOrder(P string, lexFn *ssa.Function) {
 		n := 0
 		for _, tp := range tails {
 			consistent := true
-			for _, fc := range rawPathFacts(lf, tp) {
+			for _, fc := range pathFacts(lf, tp) {
 				if op, ok := relOf(fc, false); ok && !holds(o, op) {
 					consistent = false
 				}
